@@ -2,8 +2,11 @@ package main
 
 import (
 	"fmt"
+	"go/constant"
 	"go/types"
+	"golang.org/x/tools/go/ssa"
 	"sort"
+	"strconv"
 	"strings"
 )
 
@@ -86,13 +89,18 @@ func ruleEnum(p *Program, r *Result) {
 			r.undecided("R-ENUM", "validate:"+et, p.Pos(nt.Obj().Pos()), "no Validate method")
 			continue
 		}
-		paths, _, err := validatorPaths(fn, p.Sizes)
+		paths, _, err := validatorPaths(p.predicateView(fn), p.Sizes)
 		if err != nil {
 			r.undecided("R-ENUM", "validate:"+et, p.Pos(fn.Pos()), "Validate is not a loop-free predicate: %v", err)
 			continue
 		}
 		accepted := map[int64]bool{}
 		open := false
+		if acc, ok := enumerateAccepted(p, nt, paths); ok {
+			// every accept path is made of comparisons that can be evaluated for each of the 256 octet values
+			accepted = acc
+			paths = nil
+		}
 		for _, pa := range paths {
 			if !pa.accept {
 				continue
@@ -133,7 +141,7 @@ func ruleEnum(p *Program, r *Result) {
 	}
 	// PrivLvl: 0..15
 	if fn := p.LookupFunc("", "PrivLvl.Validate"); fn != nil {
-		paths, _, err := validatorPaths(fn, p.Sizes)
+		paths, _, err := validatorPaths(p.predicateView(fn), p.Sizes)
 		good := err == nil
 		nacc := 0
 		for _, pa := range paths {
@@ -160,10 +168,14 @@ func ruleEnum(p *Program, r *Result) {
 	}
 	// Version: major 0xc, minor 0 or 1
 	if fn := p.LookupFunc("", "Version.Validate"); fn != nil {
-		paths, _, err := validatorPaths(fn, p.Sizes)
+		paths, _, err := validatorPaths(p.predicateView(fn), p.Sizes)
 		good := err == nil
 		minors := map[string]bool{}
+		if err != nil {
+			dbg("Version.Validate paths: %v", err)
+		}
 		for _, pa := range paths {
+			dbg("Version.Validate path accept=%v atoms=%v", pa.accept, pa.atoms)
 			if !pa.accept {
 				continue
 			}
@@ -184,4 +196,193 @@ func ruleEnum(p *Program, r *Result) {
 		r.cond(good && len(minors) == 2, "R-ENUM", "validate:Version", p.Pos(fn.Pos()), "Version.Validate accepts exactly major 0xc with minor 0 or 1", "Version.Validate does not accept exactly major 0xc with minor 0 or 1")
 	}
 	r.floor("R-ENUM", 70)
+}
+
+// enumerateAccepted evaluates the accept paths of a validator of a one-octet type for each of the 256 values: every
+// atom must be a comparison between the receiver, constants and entries of package-level tables of constants that
+// only the package initialiser writes (tbl:...[receiver]). ok=false when something cannot be evaluated.
+func enumerateAccepted(p *Program, nt *types.Named, paths []vPath) (map[int64]bool, bool) {
+	b, isBasic := nt.Underlying().(*types.Basic)
+	if !isBasic || (b.Kind() != types.Uint8 && b.Kind() != types.Int8) {
+		return nil, false
+	}
+	tables := map[string]map[int64]string{}
+	tableLen := map[string]int64{}
+	type val struct {
+		i   int64
+		s   string
+		str bool
+	}
+	var evalTerm func(t string, v int64) (val, bool)
+	evalTerm = func(t string, v int64) (val, bool) {
+		switch {
+		case strings.HasPrefix(t, "param:"):
+			return val{i: v}, true
+		case strings.HasPrefix(t, "const:"):
+			c := strings.TrimPrefix(t, "const:")
+			if strings.HasPrefix(c, "\"") {
+				if u, err := strconv.Unquote(c); err == nil {
+					return val{s: u, str: true}, true
+				}
+				return val{}, false
+			}
+			if c == "true" || c == "false" {
+				return val{s: c, str: true}, true
+			}
+			n, err := strconv.ParseInt(c, 10, 64)
+			return val{i: n}, err == nil
+		case strings.HasPrefix(t, "tbl:") && strings.HasSuffix(t, "]"):
+			i := strings.Index(t, "[")
+			name := t[len("tbl:"):i]
+			ix, ok := evalTerm(t[i+1:len(t)-1], v)
+			if !ok || ix.str {
+				return val{}, false
+			}
+			tb, seen := tables[name]
+			if !seen {
+				tb, tableLen[name] = constStringTable(p, name)
+				tables[name] = tb
+			}
+			if tb == nil || ix.i < 0 || ix.i >= tableLen[name] {
+				return val{}, false // unknown table, or an index that panics: not an accept
+			}
+			e, set := tb[ix.i]
+			if !set {
+				e = tb[-1] // the element type's zero value
+			}
+			return val{s: e, str: true}, true
+		}
+		return val{}, false
+	}
+	acc := map[int64]bool{}
+	for v := int64(0); v < 256; v++ {
+		for _, pa := range paths {
+			if !pa.accept {
+				continue
+			}
+			if len(pa.raw) > 0 {
+				return nil, false
+			}
+			holds := true
+			for _, a := range pa.atoms {
+				l, ok1 := evalTerm(a.L, v)
+				r, ok2 := evalTerm(a.R, v)
+				if !ok1 || !ok2 || l.str != r.str {
+					// an index beyond the table cannot be reached on an accept path when an earlier atom already fails
+					if !holds {
+						continue
+					}
+					return nil, false
+				}
+				var c int
+				if l.str {
+					c = strings.Compare(l.s, r.s)
+				} else if l.i < r.i {
+					c = -1
+				} else if l.i > r.i {
+					c = 1
+				}
+				switch a.Op {
+				case "==":
+					holds = holds && c == 0
+				case "!=":
+					holds = holds && c != 0
+				case "<":
+					holds = holds && c < 0
+				case "<=":
+					holds = holds && c <= 0
+				default:
+					return nil, false
+				}
+			}
+			if holds {
+				acc[v] = true
+			}
+		}
+	}
+	return acc, true
+}
+
+// constStringTable: the entries of the package-level array of strings named pkgpath.name, which the package
+// initialiser fills with constants at constant indexes and nothing else writes. Returns nil when that is not so.
+func constStringTable(p *Program, full string) (map[int64]string, int64) {
+	i := strings.LastIndex(full, ".")
+	if i < 0 {
+		return nil, 0
+	}
+	sp := p.SSAPkg[full[:i]]
+	if sp == nil {
+		return nil, 0
+	}
+	g, ok := sp.Members[full[i+1:]].(*ssa.Global)
+	if !ok {
+		return nil, 0
+	}
+	arr, ok := g.Type().(*types.Pointer).Elem().Underlying().(*types.Array)
+	if !ok {
+		return nil, 0
+	}
+	eb, ok := arr.Elem().Underlying().(*types.Basic)
+	if !ok || eb.Info()&(types.IsString|types.IsBoolean) == 0 {
+		return nil, 0
+	}
+	out := map[int64]string{-1: ""}
+	if eb.Info()&types.IsBoolean != 0 {
+		out[-1] = "false"
+	}
+	init := sp.Func("init")
+	fns := append([]*ssa.Function{}, p.Funcs...)
+	if init != nil {
+		fns = append(fns, init)
+	}
+	seen := map[*ssa.Function]bool{}
+	for _, f := range fns {
+		if f.Pkg != sp || seen[f] {
+			continue
+		}
+		seen[f] = true
+		for _, b := range f.Blocks {
+			for _, in := range b.Instrs {
+				switch x := in.(type) {
+				case *ssa.IndexAddr:
+					if x.X != ssa.Value(g) {
+						continue
+					}
+					for _, rf := range refsOf(x) {
+						switch y := rf.(type) {
+						case *ssa.Store:
+							k, okk := constInt(x.Index)
+							c, isC := y.Val.(*ssa.Const)
+							if f != init || y.Addr != ssa.Value(x) || !okk || !isC || c.Value == nil || (c.Value.Kind() != constant.String && c.Value.Kind() != constant.Bool) {
+								return nil, 0
+							}
+							if _, dup := out[k]; dup {
+								return nil, 0
+							}
+							if c.Value.Kind() == constant.Bool {
+								out[k] = fmt.Sprintf("%v", constant.BoolVal(c.Value))
+							} else {
+								out[k] = constant.StringVal(c.Value)
+							}
+						case *ssa.UnOp, *ssa.DebugRef:
+						default:
+							return nil, 0
+						}
+					}
+				case *ssa.Store:
+					if x.Addr == ssa.Value(g) {
+						// whole-array assignment: only the initialiser, from a literal built there
+						return nil, 0
+					}
+				case *ssa.Slice:
+					if x.X == ssa.Value(g) {
+						return nil, 0
+					}
+				case *ssa.UnOp:
+					// a copy of the whole table is a read
+				}
+			}
+		}
+	}
+	return out, arr.Len()
 }
